@@ -55,6 +55,8 @@ def uni_args(u, index):
     lens = {len(k) for k in u["base"] + u["delta"] + u["probes"]}
     if u["kind"] == "kv" and len(lens) > 1:
         a += ["--simple-bounds", "1"]
+    if u.get("full_prefix_word"):
+        a += ["--full-prefix-word", "1"]
     return a
 
 
